@@ -411,7 +411,7 @@ func timeouts(t *testing.T, rep *ev.Report) {
 			if len(cur) == 3 || strings.ContainsAny(cur, "GXR") {
 				return
 			}
-			for _, l := range "SCTPWGXR" {
+			for _, l := range "SCTPWUGXR" {
 				gen(cur + string(l))
 			}
 		}
@@ -419,7 +419,7 @@ func timeouts(t *testing.T, rep *ev.Report) {
 		for _, hi := range hists {
 			{
 				proto, letters := hi.proto, hi.letters
-				desc := fmt.Sprintf("idle-timeout I=%v proto=%s after client history %s (S served, C cancelled by RST_STREAM in flight, T upload with trailers served, P request refused for a self-dependent priority, W WINDOW_UPDATE+PRIORITY, G client GOAWAY when idle, X GOAWAY then RST_STREAM of the request in flight, R GOAWAY then the request in flight is answered)", I, proto, letters)
+				desc := fmt.Sprintf("idle-timeout I=%v proto=%s after client history %s (S served, C cancelled by RST_STREAM in flight, T upload with trailers served, U upload answered before its END_STREAM which never comes, P request refused for a self-dependent priority, W WINDOW_UPDATE+PRIORITY, G client GOAWAY when idle, X GOAWAY then RST_STREAM of the request in flight, R GOAWAY then the request in flight is answered)", I, proto, letters)
 				I := I
 				opts := func() bubble.StackOpts { return binaryStack("10s", I.String()) }
 				if I < 0 {
@@ -442,6 +442,7 @@ func timeouts(t *testing.T, rep *ev.Report) {
 						synctest.Wait()
 						cl.Write(h2wire.SettingsAck())
 					}
+					st.Backend.Early = func(r *http.Request) bool { return strings.HasPrefix(r.URL.Path, "/early") }
 					release := make(chan struct{})
 					st.Backend.Hold = func(r *bubble.RecReq) {
 						if strings.HasPrefix(r.Path, "/held") {
@@ -473,6 +474,13 @@ func timeouts(t *testing.T, rep *ev.Report) {
 							// PROTOCOL_ERROR, RFC 7540 5.3.1); no handler runs, the connection goes on
 							cl.Write(h2wire.Headers(id, cl.Enc.Block(h2wire.HF{Name: ":method", Value: "GET"}, h2wire.HF{Name: ":scheme", Value: "https"},
 								h2wire.HF{Name: ":authority", Value: "localhost"}, h2wire.HF{Name: ":path", Value: fmt.Sprintf("/i%d", i)}), true, true, &h2wire.Prio{Dep: id, Weight: 10}, -1))
+						case l == 'U':
+							// an upload whose declared length has arrived in full but whose END_STREAM has not, answered by the
+							// backend without waiting (401): the exchange is over for the server; the client never ends the stream
+							cl.Write(h2wire.Headers(id, cl.Enc.Block(h2wire.HF{Name: ":method", Value: "POST"}, h2wire.HF{Name: ":scheme", Value: "https"},
+								h2wire.HF{Name: ":authority", Value: "localhost"}, h2wire.HF{Name: ":path", Value: fmt.Sprintf("/early%d", i)}, h2wire.HF{Name: "content-length", Value: "7"}), false, true, nil, -1))
+							cl.Write(h2wire.Data(id, []byte("payload"), false, -1))
+							want++
 						case l == 'W':
 							// frames that only concern the connection: flow-control credit and a priority hint
 							cl.Write(h2wire.WindowUpdate(0, 1000))
